@@ -1,6 +1,6 @@
 """C04 - operators are ordinary functions: dispatch-path agreement (static clauses)."""
 import re
-from .core import (CheckError, find_match, arm_region, pat_str, strip_ref, origins, only_when, pat_paths,
+from .core import (builds_error, CheckError, find_match, arm_region, pat_str, strip_ref, origins, only_when, pat_paths,
                    Registry, op_local)
 from .opassign import opassign_facts
 
@@ -28,6 +28,8 @@ def sig(F, b, blocks=None, depth=0):
     out = set()
     for c in cs:
         t = c.target
+        if builds_error(F, c):
+            out.add('raises')            # the two paths must agree on whether they can reject their argument at all
         if NOISE.search(t):
             continue
         out.add('indirect-call' if c.is_indirect else t)
@@ -85,12 +87,32 @@ def run(F, rep, tier):
                 else:
                     s1 = sig(F, rb, regs)
                     s2 = sig(F, F.body(tgt))
+                    # run rejects what its specific arms do not accept in its catch-all arm
+                    partial = all(len(pat_paths(a3['pat'])) > 1 or a3.get('guard') for a3 in m['arms']
+                                  if pat_paths(a3['pat']) and pat_paths(a3['pat'])[0].rsplit('::', 1)[-1] == v and pat_paths(a3['pat'])[0].startswith('few::Few'))
+                    for i2, a2 in enumerate(m['arms']):
+                        if partial and strip_ref(a2['pat']).get('k') in ('wild', 'bind') and any(builds_error(F, c_) for c_ in rb.calls_in(arm_region(F, rb, m, i2))):
+                            s1.add('raises')
                     if s1 == s2:
                         rep.ok('R4.1', '%s run/%s' % (ty, 'run1' if v == 'One' else 'run2'), 'same effect signature (%d callees)' % len(s1))
                     else:
                         rep.viol('R4.1', '%s|%s|diverged' % (ty, v),
                                  '%s: the %s-argument arm of run and %s do different things: only in run %s; only in %s %s'
                                  % (ty, 'one' if v == 'One' else 'two', tgt.rsplit('::', 1)[-1], sorted(s1 - s2)[:5], tgt.rsplit('::', 1)[-1], sorted(s2 - s1)[:5]), F.body(tgt).loc(0))
+        for v, tgt in (('One', r1), ('Two', r2)):
+            if not tgt or v in handled or not ms or not F.has_fn(tgt):
+                continue
+            # an override that run has no arm for: it must be a pure delegation to run, or run must reach it some other way
+            n1 += 1
+            tb_ = F.body(tgt)
+            to_run = {c.bb for c in tb_.calls if c.target == run_}
+            oks = {bb for bb, s_ in tb_.aggregates() if s_[1] == [0]} | {c.bb for c in tb_.calls if c.dest == [0] and c.target != run_}
+            if to_run and not oks:
+                rep.ok('R4.1', '%s %s' % (ty, tgt.rsplit('::', 1)[-1]), 'delegates to run on every path')
+            elif any(c.target == tgt for c in rb.calls):
+                rep.ok('R4.1', '%s %s' % (ty, tgt.rsplit('::', 1)[-1]), 'reached from run')
+            else:
+                rep.viol('R4.1', '%s|%s|independent' % (ty, v), '%s::%s computes results of its own (%d result site(s)) while run has no %s-argument arm that calls it or does the same: the infix / op-assign / fold forms (run%s) and the call forms (run) are two implementations that can disagree, e.g. on which operand may be the key function' % (ty, tgt.rsplit('::', 1)[-1], len(oks), 'one' if v == 'One' else 'two', '1' if v == 'One' else '2'), tb_.loc(0))
         if not ms:
             # run without a Few match (expect_one style): must reach run1's work
             if r1:
